@@ -65,22 +65,53 @@ def reference(fi, op, full=False):
         vr = _ver_reference(fi, op, full)
         if vr is not None:
             return vr
+    if op[0] == 'die_iter_held' and len(op) > 4 and op[4]:
+        # assembled: the walk and the navigation from the op without anything in between, the inner ops from their own solo runs
+        base, t = solo(fi, op[:4], full)
+        mark = ('WALKED',) if full else cdigest(('WALKED',))
+        if mark in base:
+            i = base.index(mark)
+            mid = []
+            for inner in op[4]:
+                r2, t2 = reference(fi, inner, full)
+                mid += r2
+                t += t2
+            return base[:i + 1] + mid + base[i + 1:], t
     ew = poolmod.ELEMENTWISE.get(op[0])
     if ew:
         ai, npre = ew
         elems = op[ai]
         total = 0
         out = None
+        def solo_memo(single):
+            mk = (fi['name'], json.dumps(single), full)
+            if mk in _SOLO_MEMO:
+                return _SOLO_MEMO[mk]
+            r, t = solo(fi, single, full)
+            if len(_SOLO_MEMO) < 20000:
+                _SOLO_MEMO[mk] = (r, t)
+            return r, t
         for e in elems:
             single = list(op)
             single[ai] = [e]
-            mk = (fi['name'], json.dumps(single), full)
-            if mk in _SOLO_MEMO:
-                r, t = _SOLO_MEMO[mk]
-            else:
-                r, t = solo(fi, single, full)
-                if len(_SOLO_MEMO) < 20000:
-                    _SOLO_MEMO[mk] = (r, t)
+            r = None
+            if op[0] == 'session' and e and e[0] == 'iter_split':
+                # the reference of a suspended-and-resumed iteration is itself assembled: the uninterrupted iteration alone
+                # and the inner query alone, each on a fresh object
+                s1 = list(op); s1[ai] = [[e[1], None]]
+                s2 = list(op); s2[ai] = [e[3]]
+                rf, t1 = solo_memo(s1)
+                ri, t2 = solo_memo(s2)
+                end = END if full else cdigest(END)
+                if len(rf) > npre and rf[-1] == end and len(ri) > npre:
+                    nel = len(rf) - npre - 1
+                    if nel < e[2]:
+                        r = list(rf)
+                    else:
+                        r = rf[:npre + e[2]] + ri[npre:] + rf[npre + e[2]:]
+                    t = t1 + t2
+            if r is None:
+                r, t = solo_memo(single)
             total += t
             if out is None:
                 out = list(r)
@@ -94,7 +125,8 @@ def reference(fi, op, full=False):
 
 def _assembled(op):
     """Is the reference of this op assembled from other solo runs (so that running the op itself, alone, is a check)?"""
-    return op[0] == 'x2' or op[0] in poolmod.ELEMENTWISE or op[0] == 'ver_iter' or (op[0] == 'dwarf_again' and _assembled(op[1]))
+    return op[0] == 'x2' or op[0] in poolmod.ELEMENTWISE or op[0] == 'ver_iter' or (op[0] == 'dwarf_again' and _assembled(op[1])) or \
+        (op[0] == 'die_iter_held' and len(op) > 4 and bool(op[4]))
 
 
 def _held_history_check(fi, op, full_ref):
@@ -475,7 +507,7 @@ GROUPS = {
     'type units': ['tu_iter', 'tu_by_sig', 'die_by_sig', 'tu_die_iter', 'session:tu'],
     'unit list': ['cu_iter', 'cu_at', 'cu_at_stale', 'cu_containing', 'cu_containing_seq', 'die_at_info', 'lut_die', 'die_top', 'session:cu', 'aranges_lookup',
                   'tu_iter', 'die_by_sig'],
-    'entry lists': ['die_iter', 'die_at', 'die_children', 'die_siblings', 'die_parent', 'die_parent_chain', 'die_path', 'die_ref', 'die_top',
+    'entry lists': ['die_iter', 'die_iter_held', 'die_at', 'die_children', 'die_siblings', 'die_parent', 'die_parent_chain', 'die_path', 'die_ref', 'die_top',
                     'session:die', 'die_at_info', 'session:cu'],
     'abbreviations and strings': ['abbrev', 'str_table', 'linestr', 'addr_get', 'die_at', 'die_top'],
     'line programs': ['lineprog_seq', 'session:lineprog', 'die_path', 'lineprog_after'],
